@@ -19,6 +19,25 @@
 #endif
 
 static long g_calls = 0;
+/// heterogeneous "bucket" key: equivalent to every element x with x / 64 == b (a run of up to 32 elements)
+struct Bucket {
+  int b;
+};
+struct CntTransparent {
+  typedef void is_transparent;
+  bool operator()(int a, int b) const {
+    ++g_calls;
+    return a < b;
+  }
+  bool operator()(int a, Bucket k) const {
+    ++g_calls;
+    return a / 64 < k.b;
+  }
+  bool operator()(Bucket k, int a) const {
+    ++g_calls;
+    return k.b < a / 64;
+  }
+};
 struct CntLess {
   bool operator()(int a, int b) const {
     ++g_calls;
@@ -36,7 +55,11 @@ typedef amc::SmallVector<int, 4> UV;
 #else
 typedef std::vector<int, amc::allocator<int> > UV;
 #endif
+#if C19_CMP == 2
+typedef amc::FlatSet<int, CntTransparent, amc::allocator<int>, UV> FS;
+#else
 typedef amc::FlatSet<int, CntLess, amc::allocator<int>, UV> FS;
+#endif
 
 static long g_eval = 0, g_nontrivial = 0;
 static std::vector<std::string> g_fail, g_samples;
@@ -62,7 +85,7 @@ int main(int argc, char **argv) {
     if (std::string(argv[a]) == "--nmax") NMAX = std::atol(argv[a + 1]);
     if (std::string(argv[a]) == "--case") g_only = argv[a + 1];
   }
-  long hint_max_small = 0, hint_max_large = 0, lookup_max = 0;
+  long hint_max_small = 0, hint_max_large = 0, lookup_max = 0, node_hint_small = 0, node_hint_large = 0;
   // sizes: every n up to 128, then (thorough) every n up to NMAX in steps that still hit every power-of-two boundary
   std::vector<long> sizes;
   for (long n = 0; n <= std::min<long>(NMAX, 128); ++n) sizes.push_back(n);
@@ -127,12 +150,46 @@ int main(int argc, char **argv) {
         ++g_eval;
         if (c > 8) fail(std::string(idb) + "|emplace_hint(correct hint)|" + std::to_string(c) + " comparator calls > 8");
         if (s4.size() != s1.size()) fail(std::string(idb) + "|hinted insertion changed the result");
+        // correctly hinted insertion of a node handle
+        FS s6 = base, donor;
+        donor.insert(k);
+        auto nh = donor.extract(k);
+        auto h6 = s6.lower_bound(k);
+        c = count([&] { s6.insert(h6, std::move(nh)); });
+        ++g_eval;
+        ++g_nontrivial;
+        if (n >= 8 && n < 16) node_hint_small = std::max(node_hint_small, c);
+        if (n >= 100) node_hint_large = std::max(node_hint_large, c);
+        if (c > 8) fail(std::string(idb) + "|insert(correct hint, node)|" + std::to_string(c) + " comparator calls > 8");
       }
+#if C19_CMP == 2
+      if (key % 64 == 33) {
+        // heterogeneous lookups with a key equivalent to a whole run of elements
+        Bucket bk{(int)(key / 64)};
+        const char *tops[] = {"find(bucket)", "contains(bucket)", "count(bucket)", "lower_bound(bucket)", "upper_bound(bucket)"};
+        for (int o = 0; o < 5; ++o) {
+          c = count([&] {
+            switch (o) {
+              case 0: (void)base.find(bk); break;
+              case 1: (void)base.contains(bk); break;
+              case 2: (void)base.count(bk); break;
+              case 3: (void)base.lower_bound(bk); break;
+              case 4: (void)base.upper_bound(bk); break;
+            }
+          });
+          ++g_eval;
+          ++g_nontrivial;
+          if (c > bound) fail(std::string(idb) + "|" + tops[o] + "|" + std::to_string(c) + " comparator calls > " + std::to_string(bound));
+        }
+      }
+#endif
     }
     if (g_samples.size() < 5 && (n == 5 || n == 64 || n == 128 || n == NMAX)) g_samples.push_back("n=" + std::to_string(n) + ": max comparator calls per lookup so far " + std::to_string(lookup_max) + " (bound " + std::to_string(bound) + ")");
   }
   if (NMAX >= 100 && hint_max_small != hint_max_large)
     fail("correct-hint insertion cost depends on n: max " + std::to_string(hint_max_small) + " for n in [8,16) but " + std::to_string(hint_max_large) + " for n >= 100");
+  if (NMAX >= 100 && node_hint_small != node_hint_large)
+    fail("correct-hint node insertion cost depends on n: max " + std::to_string(node_hint_small) + " for n in [8,16) but " + std::to_string(node_hint_large) + " for n >= 100");
   // SmallSet in its inline state: at most 2N + 2 comparator calls per lookup
 #define SS_CASE(NN)                                                                                                        \
   {                                                                                                                        \
